@@ -262,3 +262,6 @@ def run(ctx):
     spaces.dof_by_entity(ctx)
     spaces.builder_roles(ctx)
     dispatch(ctx)
+    from .. import intwidth
+
+    intwidth.int_narrowing(ctx)  # index / offset arrays must not wrap
